@@ -1,6 +1,6 @@
 package staking
 
-// Driver `staking` (C11), TWIN CHAINS: two in-memory chains with identical genesis and zero fees. Random sequences of
+// Driver `staking` (C11), TWIN CHAINS: two in-memory chains with identical genesis; every fee is sponsored by the harness (hx/c11_sponsor.go) so that fees leave no trace. Random sequences of
 // staking-precompile calls (by EOAs and by contracts through CALL / DELEGATECALL / CALLCODE chains) run on chain A; the
 // driver's own translation into native staking / distribution messages runs on chain B as ordinary Cosmos transactions;
 // native messages, reward accrual and time jumps run on both. After every step the chains' staking / distribution / bank
@@ -9,6 +9,8 @@ package staking
 
 import (
 	"bytes"
+	"crypto/sha256"
+	"errors"
 	"fmt"
 	"math/big"
 	"sort"
@@ -30,6 +32,8 @@ import (
 	"github.com/ethereum/go-ethereum/crypto"
 	"github.com/ethereum/go-ethereum/signer/core/apitypes"
 	"github.com/stretchr/testify/require"
+	"google.golang.org/grpc/codes"
+	"google.golang.org/grpc/status"
 
 	itutiltypes "github.com/EscanBE/evermint/v12/integration_test_util/types"
 	cpcabi "github.com/EscanBE/evermint/v12/x/cpc/abi"
@@ -67,18 +71,26 @@ type twin struct {
 	vals    []valInfo                  // sorted by operator string (index = rank)
 	chainID *big.Int
 	signed  []signedUse
+	// the twins differ: every later comparison would only repeat the first difference, the sequence is abandoned
+	diverged bool
 }
 
 type signedUse struct {
-	payload []byte
-	caller  common.Address
-	call    string // Coq term of the decoded call
-	rec     string
-	method  string
-	native  func(del sdk.AccAddress) []sdk.Msg
+	delegator common.Address
+	payload   []byte
+	caller    common.Address
+	call      string // Coq term of the decoded call
+	rec       string
+	method    string
+	native    func(del sdk.AccAddress) []sdk.Msg
 }
 
-func e18(n int64) *big.Int { return new(big.Int).Mul(big.NewInt(n), new(big.Int).Exp(big.NewInt(10), big.NewInt(18), nil)) }
+// gas limit of every transaction on either chain (the same, see the fee market note in newTwin)
+const txGas = 4_000_000
+
+func e18(n int64) *big.Int {
+	return new(big.Int).Mul(big.NewInt(n), new(big.Int).Exp(big.NewInt(10), big.NewInt(18), nil))
+}
 
 func zOf(bz []byte) string { return CqZ(new(big.Int).SetBytes(bz)) }
 
@@ -120,6 +132,8 @@ func newTwin(t *testing.T) *twin {
 		require.NoError(t, err)
 		c.DeployCpcs(tw.bond)
 		c.RepairConsAddrIndex()
+		// a constant gas price (0 + 1) on both chains: the sponsored up-front fee enters the total supply for the duration
+		// of a block and x/mint's provision depends on the supply, so it must be the same amount on both chains
 		require.NoError(t, c.App.FeeMarketKeeper.SetParams(ctx, feemarkettypes.Params{BaseFee: sdkmath.ZeroInt(), MinGasPrice: sdkmath.LegacyZeroDec()}))
 		sp, err := c.App.StakingKeeper.GetParams(ctx)
 		require.NoError(t, err)
@@ -180,6 +194,9 @@ func (tw *twin) accrue() {
 		coins := sdk.NewCoins(sdk.NewCoin(tw.bond, sdkmath.NewIntFromBigInt(e18(7))))
 		require.NoError(tw.t, c.App.BankKeeper.MintCoins(ctx, evmtypes.ModuleName, coins))
 		require.NoError(tw.t, c.App.BankKeeper.SendCoinsFromModuleToModule(ctx, evmtypes.ModuleName, authtypes.FeeCollectorName, coins))
+		// a duplicate validator of the suite (same consensus key, see RepairConsAddrIndex) that was delegated to and then
+		// emptied is removed together with the shared consensus-address index entry: point it back before votes are read
+		c.RepairConsAddrIndex()
 		c.RunBlockVoted(nil)
 	})
 }
@@ -194,31 +211,52 @@ func rewardsOf(c *Chain, ctx sdk.Context, a sdk.AccAddress) (*disttypes.QueryDel
 // acct returns the per-account state the property speaks of, without rewards: balance, delegations, unbonding and
 // redelegation entries.
 func (tw *twin) acct(c *Chain, ctx sdk.Context, a sdk.AccAddress) string {
+	return tw.acctAt(c, ctx, a, time.Time{})
+}
+
+// acctAt is acct as it will be after the end blocker of a block with time `at` has run and nothing else happened:
+// unbonding entries that mature by then are paid out to the balance, matured redelegation entries are dropped
+// (x/staking EndBlocker -> DequeueAllMatureUBDQueue / DequeueAllMatureRedelegationQueue). at.IsZero(): as it is.
+func (tw *twin) acctAt(c *Chain, ctx sdk.Context, a sdk.AccAddress, at time.Time) string {
+	mature := func(t time.Time) bool { return !at.IsZero() && !t.After(at) }
 	var sb strings.Builder
-	fmt.Fprintf(&sb, "bal=%s;", c.App.BankKeeper.GetBalance(ctx, a, tw.bond).Amount)
+	bal := c.App.BankKeeper.GetBalance(ctx, a, tw.bond).Amount
+	var rest strings.Builder
 	dels, err := c.App.StakingKeeper.GetAllDelegatorDelegations(ctx, a)
 	require.NoError(tw.t, err)
 	for _, d := range dels {
-		fmt.Fprintf(&sb, "D:%s:%s;", d.ValidatorAddress, d.Shares)
+		fmt.Fprintf(&rest, "D:%s:%s;", d.ValidatorAddress, d.Shares)
 	}
 	ubds, err := c.App.StakingKeeper.GetAllUnbondingDelegations(ctx, a)
 	require.NoError(tw.t, err)
 	for _, u := range ubds {
-		fmt.Fprintf(&sb, "U:%s:", u.ValidatorAddress)
+		var es strings.Builder
 		for _, en := range u.Entries {
-			fmt.Fprintf(&sb, "%s/%s/%d/%d,", en.InitialBalance, en.Balance, en.CreationHeight, en.CompletionTime.Unix())
+			if mature(en.CompletionTime) {
+				bal = bal.Add(en.Balance)
+				continue
+			}
+			fmt.Fprintf(&es, "%s/%s/%d/%d,", en.InitialBalance, en.Balance, en.CreationHeight, en.CompletionTime.Unix())
 		}
-		sb.WriteString(";")
+		if es.Len() > 0 {
+			fmt.Fprintf(&rest, "U:%s:%s;", u.ValidatorAddress, es.String())
+		}
 	}
 	reds, err := c.App.StakingKeeper.GetRedelegations(ctx, a, 1000)
 	require.NoError(tw.t, err)
 	for _, r := range reds {
-		fmt.Fprintf(&sb, "R:%s:%s:", r.ValidatorSrcAddress, r.ValidatorDstAddress)
+		var es strings.Builder
 		for _, en := range r.Entries {
-			fmt.Fprintf(&sb, "%s/%s/%d/%d,", en.InitialBalance, en.SharesDst, en.CreationHeight, en.CompletionTime.Unix())
+			if mature(en.CompletionTime) {
+				continue
+			}
+			fmt.Fprintf(&es, "%s/%s/%d/%d,", en.InitialBalance, en.SharesDst, en.CreationHeight, en.CompletionTime.Unix())
 		}
-		sb.WriteString(";")
+		if es.Len() > 0 {
+			fmt.Fprintf(&rest, "R:%s:%s:%s;", r.ValidatorSrcAddress, r.ValidatorDstAddress, es.String())
+		}
 	}
+	fmt.Fprintf(&sb, "bal=%s;%s", bal, rest.String())
 	return sb.String()
 }
 
@@ -246,6 +284,20 @@ func (tw *twin) projection(c *Chain) (string, map[string]string) {
 		parts["val:"+v.OperatorAddress] = fmt.Sprintf("%s/%s/%s", v.Tokens, v.DelegatorShares, v.Status)
 	}
 	parts["cpc_addr_balance"] = c.App.BankKeeper.GetBalance(ctx, tw.cpc.Bytes(), tw.bond).Amount.String()
+	// everything x/staking, x/distribution and x/bank keep (all delegators, all validators, pools, reward periods and
+	// their reference counts, supply), byte for byte; staking's HistoricalInfo (0x50: block headers) is chain-specific
+	for _, name := range []string{"staking", "distribution", "bank"} {
+		h := sha256.New()
+		it := ctx.MultiStore().GetKVStore(c.App.GetKVStoreKey()[name]).Iterator(nil, nil)
+		for ; it.Valid(); it.Next() {
+			if name == "staking" && len(it.Key()) > 0 && it.Key()[0] == 0x50 {
+				continue
+			}
+			fmt.Fprintf(h, "%x=%x;", it.Key(), it.Value())
+		}
+		it.Close()
+		parts["store:"+name] = fmt.Sprintf("%x", h.Sum(nil)[:12])
+	}
 	keys := make([]string, 0, len(parts))
 	for k := range parts {
 		keys = append(keys, k)
@@ -516,6 +568,8 @@ type cpcOp struct {
 	coqCall string
 	rec     string // Coq option Z: independently recovered signer (signed methods)
 	class   string // argument / signature class, for the histogram
+	// signed methods: the delegator named in the message
+	signedDelegator *common.Address
 	// translate produces, executing on dry (cache of B), the script of native messages; ok=false: the call must fail
 	translate func(dry sdk.Context, caller sdk.AccAddress) (script []scriptEntry, ok bool)
 }
@@ -526,7 +580,9 @@ func (tw *twin) pack(name string, args ...interface{}) []byte {
 	return bz
 }
 
-func coin(denom string, a *big.Int) sdk.Coin { return sdk.Coin{Denom: denom, Amount: sdkmath.NewIntFromBigInt(a)} }
+func coin(denom string, a *big.Int) sdk.Coin {
+	return sdk.Coin{Denom: denom, Amount: sdkmath.NewIntFromBigInt(a)}
+}
 
 func (tw *twin) runScript(dry sdk.Context, caller sdk.AccAddress, msgs []sdk.Msg) ([]scriptEntry, bool) {
 	var script []scriptEntry
@@ -569,6 +625,41 @@ func (tw *twin) pickVal(r *Rng) (common.Address, string) {
 		}
 	}
 	return common.BigToAddress(r.BigBits(150)), "unknown"
+}
+
+// pickOwnVal prefers (70%) a validator the caller is delegated to, so that undelegate / redelegate / withdraw mostly
+// reach the native message servers with something to do.
+func (tw *twin) pickOwnVal(r *Rng, caller sdk.AccAddress) (common.Address, string) {
+	if r.Chance(70) {
+		dels, err := tw.B.App.StakingKeeper.GetAllDelegatorDelegations(tw.B.QueryCtx(), caller)
+		if err == nil && len(dels) > 0 {
+			return common.BytesToAddress(tw.valBytes(tw.B, dels[r.Intn(len(dels))].ValidatorAddress)), "own"
+		}
+	}
+	return tw.pickVal(r)
+}
+
+// pickPart is an amount for taking stake out of a delegation: mostly within it.
+func (tw *twin) pickPart(r *Rng, caller sdk.AccAddress, val common.Address) (*big.Int, string) {
+	q := tw.B.QueryCtx()
+	if d, err := tw.B.App.StakingKeeper.GetDelegation(q, caller, val.Bytes()); err == nil && r.Chance(65) {
+		if v, err := tw.B.App.StakingKeeper.GetValidator(q, val.Bytes()); err == nil {
+			t := v.TokensFromShares(d.Shares).TruncateInt().BigInt()
+			if t.Sign() > 0 {
+				switch r.Intn(4) {
+				case 0:
+					return t, "delegation"
+				case 1:
+					return big.NewInt(1), "one"
+				case 2:
+					return new(big.Int).Add(new(big.Int).Div(t, big.NewInt(3)), big.NewInt(1)), "delegation/3+1"
+				default:
+					return new(big.Int).Add(new(big.Int).Mod(r.BigBits(70), t), big.NewInt(1)), "within"
+				}
+			}
+		}
+	}
+	return tw.pickAmount(r, caller, val)
 }
 
 func (tw *twin) pickAmount(r *Rng, caller sdk.AccAddress, val common.Address) (*big.Int, string) {
@@ -658,8 +749,8 @@ func (tw *twin) genOp(r *Rng, caller *itutiltypes.TestAccount) cpcOp {
 				return tw.runScript(dry, c, []sdk.Msg{&stakingtypes.MsgDelegate{DelegatorAddress: c.String(), ValidatorAddress: tw.valStr(B, v), Amount: coin(tw.bond, a)}})
 			}}
 	case kind < 32:
-		v, vc := tw.pickVal(r)
-		a, ac := tw.pickAmount(r, meAcc, v)
+		v, vc := tw.pickOwnVal(r, meAcc)
+		a, ac := tw.pickPart(r, meAcc, v)
 		return cpcOp{method: "undelegate", class: vc + "/" + ac, payload: tw.pack("undelegate", v, a),
 			coqCall: fmt.Sprintf("CUndelegate %s %s", zOf(v.Bytes()), CqZ(a)),
 			translate: func(dry sdk.Context, c sdk.AccAddress) ([]scriptEntry, bool) {
@@ -669,9 +760,9 @@ func (tw *twin) genOp(r *Rng, caller *itutiltypes.TestAccount) cpcOp {
 				return tw.runScript(dry, c, []sdk.Msg{&stakingtypes.MsgUndelegate{DelegatorAddress: c.String(), ValidatorAddress: tw.valStr(B, v), Amount: coin(tw.bond, a)}})
 			}}
 	case kind < 44:
-		src, sc := tw.pickVal(r)
+		src, sc := tw.pickOwnVal(r, meAcc)
 		dst, dc := tw.pickVal(r)
-		a, ac := tw.pickAmount(r, meAcc, src)
+		a, ac := tw.pickPart(r, meAcc, src)
 		return cpcOp{method: "redelegate", class: sc + ">" + dc + "/" + ac, payload: tw.pack("redelegate", src, dst, a),
 			coqCall: fmt.Sprintf("CRedelegate %s %s %s", zOf(src.Bytes()), zOf(dst.Bytes()), CqZ(a)),
 			translate: func(dry sdk.Context, c sdk.AccAddress) ([]scriptEntry, bool) {
@@ -681,7 +772,7 @@ func (tw *twin) genOp(r *Rng, caller *itutiltypes.TestAccount) cpcOp {
 				return tw.runScript(dry, c, []sdk.Msg{&stakingtypes.MsgBeginRedelegate{DelegatorAddress: c.String(), ValidatorSrcAddress: tw.valStr(B, src), ValidatorDstAddress: tw.valStr(B, dst), Amount: coin(tw.bond, a)}})
 			}}
 	case kind < 54:
-		v, vc := tw.pickVal(r)
+		v, vc := tw.pickOwnVal(r, meAcc)
 		return cpcOp{method: "withdrawReward", class: vc, payload: tw.pack("withdrawReward", v),
 			coqCall: fmt.Sprintf("CWithdrawReward %s", zOf(v.Bytes())),
 			translate: func(dry sdk.Context, c sdk.AccAddress) ([]scriptEntry, bool) {
@@ -749,8 +840,9 @@ func (tw *twin) otherKeyed(r *Rng, not common.Address) *itutiltypes.TestAccount 
 func (tw *twin) genSignedStaking(r *Rng, caller *itutiltypes.TestAccount) cpcOp {
 	me := caller.GetEthAddress()
 	B := tw.B
+	meAcc := caller.GetCosmosAddress()
 	v, vc := tw.pickVal(r)
-	a, ac := tw.pickAmount(r, caller.GetCosmosAddress(), v)
+	a, ac := tw.pickAmount(r, meAcc, v)
 	msg := cpcabi.StakingMessage{Delegator: me, Validator: tw.valStr(B, v), Amount: a, Denom: tw.bond, OldValidator: "-"}
 	var old common.Address
 	switch r.Intn(3) {
@@ -758,10 +850,14 @@ func (tw *twin) genSignedStaking(r *Rng, caller *itutiltypes.TestAccount) cpcOp 
 		msg.Action = cpcabi.StakingMessageActionDelegate
 	case 1:
 		msg.Action = cpcabi.StakingMessageActionUndelegate
+		v, vc = tw.pickOwnVal(r, meAcc)
+		a, ac = tw.pickPart(r, meAcc, v)
+		msg.Validator, msg.Amount = tw.valStr(B, v), a
 	default:
 		msg.Action = cpcabi.StakingMessageActionRedelegate
-		old, _ = tw.pickVal(r)
-		msg.OldValidator = tw.valStr(B, old)
+		old, _ = tw.pickOwnVal(r, meAcc)
+		a, ac = tw.pickPart(r, meAcc, old)
+		msg.OldValidator, msg.Amount = tw.valStr(B, old), a
 	}
 	signer, chain, class := caller, tw.chainID, "valid"
 	switch x := r.Intn(100); {
@@ -807,7 +903,7 @@ func (tw *twin) genSignedStaking(r *Rng, caller *itutiltypes.TestAccount) cpcOp 
 	m := msg
 	op := cpcOp{method: "delegateByActionMessage", class: class + "/" + msg.Action + "/" + vc + "/" + ac,
 		payload: tw.pack("delegateByActionMessage", msg, rr, ss, vv),
-		coqCall: fmt.Sprintf("CDelegateByMessage %s 0", coqMsg), rec: tw.recoverSigner(msg, rr, ss, vv)}
+		coqCall: fmt.Sprintf("CDelegateByMessage %s 0", coqMsg), rec: tw.recoverSigner(msg, rr, ss, vv), signedDelegator: &msg.Delegator}
 	native := func(del sdk.AccAddress) []sdk.Msg {
 		switch m.Action {
 		case cpcabi.StakingMessageActionDelegate:
@@ -828,7 +924,7 @@ func (tw *twin) genSignedStaking(r *Rng, caller *itutiltypes.TestAccount) cpcOp 
 		return tw.runScript(dry, c, native(c))
 	}
 	if class == "valid" {
-		tw.signed = append(tw.signed, signedUse{payload: op.payload, caller: me, call: op.coqCall, rec: op.rec, method: op.method, native: native})
+		tw.signed = append(tw.signed, signedUse{delegator: me, payload: op.payload, caller: me, call: op.coqCall, rec: op.rec, method: op.method, native: native})
 	}
 	return op
 }
@@ -840,7 +936,7 @@ func (tw *twin) genSignedWithdraw(r *Rng, caller *itutiltypes.TestAccount) cpcOp
 	fromC := "FromAll"
 	var v common.Address
 	if r.Chance(50) {
-		v, _ = tw.pickVal(r)
+		v, _ = tw.pickOwnVal(r, caller.GetCosmosAddress())
 		msg.FromValidator = tw.valStr(B, v)
 		fromC = "(FromVal " + zOf(v.Bytes()) + ")"
 	}
@@ -870,7 +966,7 @@ func (tw *twin) genSignedWithdraw(r *Rng, caller *itutiltypes.TestAccount) cpcOp
 	m := msg
 	op := cpcOp{method: "withdrawRewardsByMessage", class: class + "/" + strings.SplitN(fromC, " ", 2)[0],
 		payload: tw.pack("withdrawRewardsByMessage", msg, rr, ss, vv),
-		coqCall: fmt.Sprintf("CWithdrawRewardsByMessage (WithdrawMessage %s %s) 0", zOf(msg.Delegator.Bytes()), fromC), rec: tw.recoverSigner(msg, rr, ss, vv)}
+		coqCall: fmt.Sprintf("CWithdrawRewardsByMessage (WithdrawMessage %s %s) 0", zOf(msg.Delegator.Bytes()), fromC), rec: tw.recoverSigner(msg, rr, ss, vv), signedDelegator: &msg.Delegator}
 	rec := op.rec
 	op.translate = func(dry sdk.Context, c sdk.AccAddress) ([]scriptEntry, bool) {
 		if fromC == "FromOther" || !bytes.Equal(m.Delegator.Bytes(), c.Bytes()) || rec != "(Some "+zOf(m.Delegator.Bytes())+")" {
@@ -892,7 +988,8 @@ func (tw *twin) genSignedWithdraw(r *Rng, caller *itutiltypes.TestAccount) cpcOp
 
 func (tw *twin) callView(c *Chain, from common.Address, to common.Address, data []byte) ([]byte, bool) {
 	ctx := c.QueryCtx()
-	msg := ethtypes.NewMessage(from, &to, 0, big.NewInt(0), 3_000_000, big.NewInt(0), big.NewInt(0), big.NewInt(0), data, nil, true)
+	bf := c.BaseFee(ctx)
+	msg := ethtypes.NewMessage(from, &to, 0, big.NewInt(0), 3_000_000, bf, bf, big.NewInt(0), data, nil, true)
 	resp, err := c.App.EvmKeeper.ApplyMessage(ctx, msg, evmtypes.NewNoOpTracer(), false)
 	require.NoError(tw.t, err)
 	return resp.Ret, !resp.Failed()
@@ -911,6 +1008,8 @@ type opDesc struct {
 	Logs    []string `json:"logs,omitempty"`
 	VmError string   `json:"vm_error,omitempty"`
 	Diff    []string `json:"twin_state_differences,omitempty"`
+	DiffA   string   `json:"first_difference_on_A,omitempty"`
+	DiffB   string   `json:"first_difference_on_B,omitempty"`
 }
 
 func TestDriverStaking(t *testing.T) {
@@ -940,13 +1039,18 @@ func TestDriverStaking(t *testing.T) {
 				side.Count("step:timejump")
 			case k < 32: // a native message on both chains
 				a := tw.tracked[r.Intn(len(tw.tracked))]
+				nk := r.Intn(4)
 				v, _ := tw.pickVal(r)
 				amt, _ := tw.pickAmount(r, a.GetCosmosAddress(), v)
+				if nk != 0 {
+					v, _ = tw.pickOwnVal(r, a.GetCosmosAddress())
+					amt, _ = tw.pickPart(r, a.GetCosmosAddress(), v)
+				}
 				if amt.Sign() == 0 {
 					amt = big.NewInt(1)
 				}
 				var m sdk.Msg
-				switch r.Intn(4) {
+				switch nk {
 				case 0:
 					m = &stakingtypes.MsgDelegate{DelegatorAddress: a.GetCosmosAddress().String(), ValidatorAddress: tw.valStr(tw.B, v), Amount: coin(tw.bond, amt)}
 				case 1:
@@ -959,8 +1063,7 @@ func TestDriverStaking(t *testing.T) {
 				}
 				var codes []uint32
 				tw.both(func(c *Chain) {
-					res := c.RunBlock([][]byte{c.CosmosTxFree(a, 2_000_000, m)})
-					codes = append(codes, res.TxResults[0].Code)
+					codes = append(codes, c.C11SendCosmos(a, txGas, m).Code)
 				})
 				side.Count(fmt.Sprintf("step:native:%T:ok=%v", m, codes[0] == 0))
 				if codes[0] != codes[1] {
@@ -969,6 +1072,8 @@ func TestDriverStaking(t *testing.T) {
 			default:
 				tw.cpcStep(r, side, cases, &idx, seq, step)
 			}
+
+			tw.debugStores(fmt.Sprintf("seq %d step %d kind %d", seq, step, k))
 			// twins must agree after every step
 			pa, ma := tw.projection(tw.A)
 			pb, mb := tw.projection(tw.B)
@@ -980,7 +1085,15 @@ func TestDriverStaking(t *testing.T) {
 					}
 				}
 				sort.Strings(diff)
-				side.Hit("C11/staking/twin-harness-diverged-outside-precompile-step", fmt.Sprintf("twins differ after a step that ran identically on both: %v", diff), nil)
+				if len(diff) > 0 {
+					diff = append(diff, "A: "+ma[diff[0]], "B: "+mb[diff[0]])
+				}
+				tw.diverged = true
+				side.Hit("C11/staking/twin-harness-diverged-outside-precompile-step", fmt.Sprintf("twins differ after step %d (kind %d) that ran identically on both: %v", step, k, diff), nil)
+			}
+			if tw.diverged {
+				side.Count("sequence:abandoned-after-divergence")
+				break
 			}
 			if step%3 == 2 {
 				tw.viewStep(r, side, cases, &idx)
@@ -1006,7 +1119,7 @@ func (tw *twin) cpcStep(r *Rng, side *Sidecar, cases *CasesFile, idx *int, seq, 
 	if len(tw.signed) > 0 && r.Chance(8) { // replay an earlier valid signed message, by whoever the caller is now
 		u := tw.signed[r.Intn(len(tw.signed))]
 		replay = true
-		op = cpcOp{method: u.method, class: "replay", payload: u.payload, coqCall: u.call, rec: u.rec}
+		op = cpcOp{method: u.method, class: "replay", payload: u.payload, coqCall: u.call, rec: u.rec, signedDelegator: &u.delegator}
 		owner := u.caller
 		native := u.native
 		op.translate = func(dry sdk.Context, c sdk.AccAddress) ([]scriptEntry, bool) {
@@ -1025,6 +1138,7 @@ func (tw *twin) cpcStep(r *Rng, side *Sidecar, cases *CasesFile, idx *int, seq, 
 	}
 	_ = replay
 	callerAcc := caller.GetCosmosAddress()
+	require.Equal(t, tw.A.C11Price().String(), tw.B.C11Price().String(), "gas prices of the twin chains diverged")
 
 	// native side: dry run on a cache of B's committed state = the model's oracle
 	qB := tw.B.QueryCtx()
@@ -1045,11 +1159,11 @@ func (tw *twin) cpcStep(r *Rng, side *Sidecar, cases *CasesFile, idx *int, seq, 
 
 	// chain A: the precompile call; third parties' state before
 	qA := tw.A.QueryCtx()
-	preA := map[string]string{}
+	preA := map[string]string{} // third parties: as they will be after this block's end blocker if nobody touches them
 	for _, a := range tw.tracked {
-		preA[a.GetEthAddress().Hex()] = tw.acct(tw.A, qA, a.GetCosmosAddress())
+		preA[a.GetEthAddress().Hex()] = tw.acctAt(tw.A, qA, a.GetCosmosAddress(), tw.A.Time)
 	}
-	res := tw.A.SendEthFree(sender, to, op.payload, 4_000_000)
+	res := tw.A.C11SendEth(sender, to, op.payload, txGas)
 	require.Equal(t, uint32(0), res.Code, "transaction rejected before execution: %s", res.Log)
 	obsOK := res.Status == 1
 	obsRet := false
@@ -1069,15 +1183,15 @@ func (tw *twin) cpcStep(r *Rng, side *Sidecar, cases *CasesFile, idx *int, seq, 
 		for _, en := range script {
 			msgs = append(msgs, en.msg)
 		}
-		resB := tw.B.RunBlock([][]byte{tw.B.CosmosTxFree(caller, 3_000_000, msgs...)})
-		require.Equal(t, uint32(0), resB.TxResults[0].Code, "native transaction failed although its dry run succeeded: %s", resB.TxResults[0].Log)
-		for _, ev := range resB.TxResults[0].Events {
+		resB := tw.B.C11SendCosmos(caller, txGas, msgs...)
+		require.Equal(t, uint32(0), resB.Code, "native transaction failed although its dry run succeeded: %s", resB.Log)
+		for _, ev := range resB.Events {
 			if ne := tw.parseEvent(tw.B, ev, false); ne.typ != "other" {
 				bEvents = append(bEvents, ne)
 			}
 		}
 	} else {
-		tw.B.RunBlock(nil)
+		tw.B.C11IdleBlock(callerAcc, txGas)
 	}
 
 	d := opDesc{Step: seq*1000 + step, Kind: "precompile", Path: p.name, Caller: caller.GetEthAddress().Hex(), Method: op.method, Class: op.class,
@@ -1097,10 +1211,25 @@ func (tw *twin) cpcStep(r *Rng, side *Sidecar, cases *CasesFile, idx *int, seq, 
 			}
 		}
 		sort.Strings(d.Diff)
-		what := "state"
-		if len(d.Diff) > 0 && strings.HasPrefix(d.Diff[0], "rewards:") && strings.HasPrefix(d.Diff[len(d.Diff)-1], "rewards:") {
+		only := func(prefixes ...string) bool {
+			for _, k := range d.Diff {
+				ok := false
+				for _, p := range prefixes {
+					ok = ok || strings.HasPrefix(k, p)
+				}
+				if !ok {
+					return false
+				}
+			}
+			return true
+		}
+		what := "state" // balances, delegations, entries, validators
+		if only("store:") {
+			what = "module-store" // nothing the queries show: internal records of the modules (reward periods, reference counts, ...)
+		} else if only("store:", "rewards:") {
 			what = "rewards"
 		}
+		tw.diverged = true
 		side.Hit(fmt.Sprintf("C11/staking/%s-differs-from-native/%s", what, op.method),
 			fmt.Sprintf("after %s via %s (precompile ok=%v, native ok=%v) the twin chains differ in %v", op.method, p.name, obsOK, expOK, d.Diff), d)
 	}
@@ -1111,12 +1240,22 @@ func (tw *twin) cpcStep(r *Rng, side *Sidecar, cases *CasesFile, idx *int, seq, 
 			continue
 		}
 		if now := tw.acct(tw.A, qA, a.GetCosmosAddress()); now != preA[a.GetEthAddress().Hex()] {
-			side.Hit("C11/staking/third-party-state-changed/"+op.method, fmt.Sprintf("balance / delegations / entries of %s changed although the caller was %s", a.GetEthAddress().Hex(), caller.GetEthAddress().Hex()), d)
+			side.Hit("C11/staking/third-party-state-changed/"+op.method, fmt.Sprintf("balance / delegations / entries of %s changed although the caller was %s: before %s, after %s", a.GetEthAddress().Hex(), caller.GetEthAddress().Hex(), preA[a.GetEthAddress().Hex()], now), d)
 		}
 	}
 	for _, l := range logs {
 		if !bytes.Equal(l.del, caller.GetEthAddress().Bytes()) {
 			side.Hit("C11/staking/log-for-other-delegator/"+op.method, "a log names a delegator that is not the immediate caller", d)
+		}
+	}
+	// (b') signed variants: accepted only if the message's delegator is the caller AND the signer recovered
+	// (independently, go-ethereum apitypes + SigToPub) from the signature for THIS chain's id
+	if op.signedDelegator != nil && obsOK {
+		if *op.signedDelegator != caller.GetEthAddress() {
+			side.Hit("C11/staking/signed-message-of-another-delegator-accepted/"+op.method, fmt.Sprintf("the message names delegator %s, the caller is %s, and the call succeeded", op.signedDelegator.Hex(), caller.GetEthAddress().Hex()), d)
+		}
+		if op.rec != "(Some "+zOf(op.signedDelegator.Bytes())+")" {
+			side.Hit("C11/staking/signed-message-accepted-without-delegators-signature-for-this-chain/"+op.method, fmt.Sprintf("signature class %s: the signer recovered for chain id %s is not the delegator, and the call succeeded", op.class, tw.chainID), d)
 		}
 	}
 	// (c) logs match exactly the module events produced (chain B's real transaction events)
@@ -1154,64 +1293,101 @@ func (tw *twin) cpcStep(r *Rng, side *Sidecar, cases *CasesFile, idx *int, seq, 
 		CqList(rwList), CqBool(totalZero), tw.coqVinfos(delegated), tw.coqVinfos(bonded), CqZ(bal0), CqList(sc), CqBool(obsOK), CqBool(obsRet), CqList(ls)))
 	side.Count("path:" + p.name)
 	side.Count(fmt.Sprintf("method:%s:ok=%v", op.method, obsOK))
-	if strings.Contains(op.method, "ByMessage") {
+	if strings.HasSuffix(op.method, "Message") {
 		side.Count(fmt.Sprintf("signed:%s:ok=%v", strings.SplitN(op.class, "/", 2)[0], obsOK))
 	}
 	side.Count(fmt.Sprintf("native_msgs:%d", len(script)))
-	nontrivial := len(script) > 0 || strings.Contains(op.method, "ByMessage") && !strings.HasPrefix(op.class, "valid")
+	nontrivial := len(script) > 0 || strings.HasSuffix(op.method, "Message") && !strings.HasPrefix(op.class, "valid")
 	side.Case(*idx, fmt.Sprintf("%s/%s/%s/%v", p.name, op.method, op.class, obsOK), nontrivial, d)
 	*idx++
 }
 
-// viewStep calls every view on A (directly and through a STATICCALL proxy) and compares with native queries on B and A.
+// viewStep calls every view on A (directly and through a STATICCALL proxy) and compares with the native gRPC queriers on
+// the same chain and state (that A's state equals B's is the twin comparison's business).
 func (tw *twin) viewStep(r *Rng, side *Sidecar, cases *CasesFile, idx *int) {
 	t := tw.t
 	a := tw.tracked[r.Intn(len(tw.tracked))]
 	v, _ := tw.pickVal(r)
 	acc := a.GetCosmosAddress()
-	B := tw.B
+	B := tw.A // the chain whose native queriers are asked
 	q := B.QueryCtx()
-	// native queries
-	delTokens := big.NewInt(0)
-	sq := stakingkeeper.NewQuerier(B.App.StakingKeeper)
-	if dr, err := sq.Delegation(q, &stakingtypes.QueryDelegationRequest{DelegatorAddr: acc.String(), ValidatorAddr: tw.valStr(B, v)}); err == nil {
-		delTokens = dr.DelegationResponse.Balance.Amount.BigInt()
+	// native queries: a number, "no delegation" (gRPC NotFound of the staking querier / ErrNoDelegation), or another error
+	type qres struct {
+		class string // QOk, QNoDelegation, QErr
+		z     *big.Int
 	}
-	bondedTotal := big.NewInt(0)
+	coqQ := func(x qres) string {
+		if x.class == "QOk" {
+			return "(QOk " + CqZ(x.z) + ")"
+		}
+		return x.class
+	}
+	sq := stakingkeeper.NewQuerier(B.App.StakingKeeper)
+	delTokens := qres{class: "QErr"}
+	if dr, err := sq.Delegation(q, &stakingtypes.QueryDelegationRequest{DelegatorAddr: acc.String(), ValidatorAddr: tw.valStr(B, v)}); err == nil {
+		delTokens = qres{"QOk", dr.DelegationResponse.Balance.Amount.BigInt()}
+	} else if status.Code(err) == codes.NotFound {
+		delTokens.class = "QNoDelegation"
+	}
+	bondedTotal := qres{class: "QErr"}
 	var nativeVals []string
 	if dd, err := sq.DelegatorDelegations(q, &stakingtypes.QueryDelegatorDelegationsRequest{DelegatorAddr: acc.String(), Pagination: &query.PageRequest{Limit: 1000}}); err == nil {
+		bondedTotal = qres{"QOk", big.NewInt(0)}
 		for _, x := range dd.DelegationResponses {
-			bondedTotal.Add(bondedTotal, x.Balance.Amount.BigInt())
+			bondedTotal.z.Add(bondedTotal.z, x.Balance.Amount.BigInt())
 			nativeVals = append(nativeVals, common.BytesToAddress(tw.valBytes(B, x.Delegation.ValidatorAddress)).Hex())
 		}
 	}
-	reward := big.NewInt(0)
+	reward := qres{class: "QErr"}
 	{
 		cc, _ := q.CacheContext()
 		if rr, err := distkeeper.NewQuerier(B.App.DistrKeeper).DelegationRewards(cc, &disttypes.QueryDelegationRewardsRequest{DelegatorAddress: acc.String(), ValidatorAddress: tw.valStr(B, v)}); err == nil {
-			reward = rr.Rewards.AmountOf(tw.bond).TruncateInt().BigInt()
+			reward = qres{"QOk", rr.Rewards.AmountOf(tw.bond).TruncateInt().BigInt()}
+		} else if errors.Is(err, stakingtypes.ErrNoDelegation) {
+			reward.class = "QNoDelegation"
 		}
 	}
-	rewardsTotal := big.NewInt(0)
+	rewardsTotal := qres{class: "QErr"}
 	if rr, err := rewardsOf(B, q, acc); err == nil {
-		rewardsTotal = rr.Total.AmountOf(tw.bond).TruncateInt().BigInt()
+		rewardsTotal = qres{"QOk", rr.Total.AmountOf(tw.bond).TruncateInt().BigInt()}
 	}
 	bal := B.App.BankKeeper.GetBalance(q, acc, tw.bond).Amount.BigInt()
+	// the property text: the view reports the native query's number; where the native side has no number ("no
+	// delegation") delegationOf / rewardOf report 0; where the native query fails there is nothing to report (nil)
+	zeroIfNone := func(x qres) *big.Int {
+		switch x.class {
+		case "QOk":
+			return x.z
+		case "QNoDelegation":
+			return big.NewInt(0)
+		}
+		return nil
+	}
+	strict := func(x qres) *big.Int {
+		if x.class == "QOk" {
+			return x.z
+		}
+		return nil
+	}
+	var balPlus *big.Int
+	if rt := strict(rewardsTotal); rt != nil {
+		balPlus = new(big.Int).Add(bal, rt)
+	}
 
 	from := tw.actors[0].GetEthAddress()
 	type vw struct {
 		name string
 		coq  string
 		data []byte
-		want *big.Int
+		want *big.Int // nil: the native query fails, the view must fail
 	}
 	me, vz := a.GetEthAddress(), zOf(v.Bytes())
 	views := []vw{
-		{"delegationOf", fmt.Sprintf("VDelegationOf %s %s", zOf(me.Bytes()), vz), tw.pack("delegationOf", me, v), delTokens},
-		{"totalDelegationOf", fmt.Sprintf("VTotalDelegationOf %s", zOf(me.Bytes())), tw.pack("totalDelegationOf", me), bondedTotal},
-		{"rewardOf", fmt.Sprintf("VRewardOf %s %s", zOf(me.Bytes()), vz), tw.pack("rewardOf", me, v), reward},
-		{"rewardsOf", fmt.Sprintf("VRewardsOf %s", zOf(me.Bytes())), tw.pack("rewardsOf", me), rewardsTotal},
-		{"balanceOf", fmt.Sprintf("VBalanceOf %s", zOf(me.Bytes())), tw.pack("balanceOf", me), new(big.Int).Add(bal, rewardsTotal)},
+		{"delegationOf", fmt.Sprintf("VDelegationOf %s %s", zOf(me.Bytes()), vz), tw.pack("delegationOf", me, v), zeroIfNone(delTokens)},
+		{"totalDelegationOf", fmt.Sprintf("VTotalDelegationOf %s", zOf(me.Bytes())), tw.pack("totalDelegationOf", me), strict(bondedTotal)},
+		{"rewardOf", fmt.Sprintf("VRewardOf %s %s", zOf(me.Bytes()), vz), tw.pack("rewardOf", me, v), zeroIfNone(reward)},
+		{"rewardsOf", fmt.Sprintf("VRewardsOf %s", zOf(me.Bytes())), tw.pack("rewardsOf", me), strict(rewardsTotal)},
+		{"balanceOf", fmt.Sprintf("VBalanceOf %s", zOf(me.Bytes())), tw.pack("balanceOf", me), balPlus},
 	}
 	for _, w := range views {
 		for _, via := range []string{"direct", "STATICCALL"} {
@@ -1220,16 +1396,29 @@ func (tw *twin) viewStep(r *Rng, side *Sidecar, cases *CasesFile, idx *int) {
 				to = tw.proxy["pstatic"].GetEthAddress()
 			}
 			ret, ok := tw.callView(tw.A, from, to, w.data)
-			got := big.NewInt(-1)
+			var got *big.Int
 			if ok && len(ret) == 32 {
 				got = new(big.Int).SetBytes(ret)
 			}
-			desc := map[string]interface{}{"kind": "view", "view": w.name, "via": via, "account": me.Hex(), "validator": v.Hex(), "observed": got.String(), "native": w.want.String()}
-			if got.Cmp(w.want) != 0 {
-				side.Hit("C11/staking/view-differs-from-native-query/"+w.name, fmt.Sprintf("%s via %s returned %s, the native query gives %s", w.name, via, got, w.want), desc)
+			str := func(x *big.Int) string {
+				if x == nil {
+					return "failure"
+				}
+				return x.String()
 			}
-			cases.Add(fmt.Sprintf("KView (ViewCase (%s) %s %s %s %s %s %s)", w.coq, CqZ(delTokens), CqZ(bondedTotal), CqZ(reward), CqZ(rewardsTotal), CqZ(bal), CqZ(got)))
+			desc := map[string]interface{}{"kind": "view", "view": w.name, "via": via, "account": me.Hex(), "validator": v.Hex(), "observed": str(got), "native": str(w.want)}
+			if (got == nil) != (w.want == nil) || got != nil && got.Cmp(w.want) != 0 {
+				side.Hit("C11/staking/view-differs-from-native-query/"+w.name, fmt.Sprintf("%s via %s returned %s, the native query gives %s", w.name, via, str(got), str(w.want)), desc)
+			}
+			obs := "None"
+			if got != nil {
+				obs = "(Some " + CqZ(got) + ")"
+			}
+			cases.Add(fmt.Sprintf("KView (ViewCase (%s) %s %s %s %s %s %s)", w.coq, coqQ(delTokens), coqQ(bondedTotal), coqQ(reward), coqQ(rewardsTotal), CqZ(bal), obs))
 			side.Count("view:" + w.name + ":" + via)
+			if w.want == nil {
+				side.Count("view:" + w.name + ":native-query-fails")
+			}
 			side.Case(*idx, "view/"+w.name+"/"+via, false, desc)
 			*idx++
 		}
